@@ -17,7 +17,7 @@ def register(PROPS):
                  'transition of 6 years per zone real TZID events (text -> parser -> stream) with DAILY / WEEKLY / MONTHLY rules are read back and '
                  'each occurrence compared with zoneinfo, plus a MONTHLY x12 event per chosen year.  All cyclic access orders (start x stride, 3 '
                  'rounds) and hot-zone orders over 15/16/17/18 zones with pairwise distinct offsets, and one process using 63/64/65 distinct TZIDs '
-                 '(library calls and parsed events), must still convert correctly.  Zone table overflow: for every installed zone T for which nine other installed zones exist whose first hash probe takes T\'s nine probe slots of the bottom region (184 here), a calendar with events in those nine zones followed by a winter and a summer daily event in T must give T\'s events the occurrences they have alone (each reading in a freshly forked image).  A library call that does not return within its CPU budget is a hang.',
+                 '(library calls and parsed events), must still convert correctly.  Zone table overflow: for every installed zone T for which nine other installed zones exist whose first hash probe takes T\'s nine probe slots of the bottom region (184 here), a calendar with events in those nine zones followed by a winter and a summer daily event in T must give T\'s events the occurrences they have alone (each reading in a freshly forked image).  The cache-order cases run with 24 file descriptors (a zone that falls out of the cache is opened again; descriptors must not leak).  Events with two RRULEs in a zone (c03_tworules) must be the union of the single-rule events.  A library call that does not return within its CPU budget is a hang.',
         'note': 'Instants from 2038-01-01 on, leap-second ("right/") files and the posix/ copy of the tree are outside the check. '
                 'Gap and fold wall-clock times are classified by the reference and never judged one-way. '
                 'RRULE expansion itself is C01; here only DTSTART + k days / 7k days / k months with an existing day of month are used.',
@@ -37,6 +37,9 @@ def register(PROPS):
             D('c07_tz', ['mode=rule', 'tier=quick'] + _T, ['mode=rule', 'tier=thorough'] + _T, label='rule'),
             D('c07_tz', ['mode=cache', 'tier=thorough'] + _T, label='cache', shards=8),
             D('c07_collide', ['maxtargets=2000'], label='zone-table-overflow', shards=4),
+            D('c03_tworules', ['mode=rules'], label='two-sources-rules', shards=4),
+            D('c03_tworules', ['mode=rdates'], label='two-sources-rdates', shards=4),
+            D('c03_tworules', ['mode=rules'], label='two-sources-rules-asan', shards=4, variant='asan'),
             D('c07_collide', ['maxtargets=60'], ['maxtargets=2000'], label='zone-table-overflow-asan', shards=4, variant='asan'),
             D('harness/ref/tzif_oracle.py', ['--vdrv', 'quick'], ['--vdrv', 'thorough'], interp='python3', label='oracle-selfcheck', shards=16),
             D('c07_tz', ['mode=conv', 'tier=quick', 'orders=seq'] + _T, label='conv-asan', variant='asan', shards=8),
